@@ -39,16 +39,16 @@ def run(ctx):
     run.trusted_base = ["CPython ast", "generated parser/visitor of the installed stix2patterns package as the grammar",
                         "spec/grammar.json (IdentifierWithoutHyphen transcribed from STIXPattern.g4)"]
     run.assumptions = ["the generated visitor's method set is the grammar's labelled alternatives"]
-    rule_visitor_exhaustive(ctx)
-    rule_not_aware(ctx)
-    rule_operator_table(ctx)
-    rule_printer_complete(ctx)
-    rule_definite_init(ctx)
-    rule_escape_order(ctx)
-    rule_step_quoting(ctx)
-    rule_token_domain(ctx)
-    rule_float_literal_form(ctx)
-    rule_path_step_kinds(ctx)
+    ctx.do(rule_visitor_exhaustive)
+    ctx.do(rule_not_aware)
+    ctx.do(rule_operator_table)
+    ctx.do(rule_printer_complete)
+    ctx.do(rule_definite_init)
+    ctx.do(rule_escape_order)
+    ctx.do(rule_step_quoting)
+    ctx.do(rule_token_domain)
+    ctx.do(rule_float_literal_form)
+    ctx.do(rule_path_step_kinds)
 
 
 def grammar_dir():
